@@ -187,7 +187,11 @@ def gen_case(rng, max_cards=40, audit_types=None, allow_style_off=True, max_roun
             contests[cid]["cards"] = max_cards_bound
     corder = list(cids)
     rng.shuffle(corder)
-    world = {"use_style": use_style, "max_cards": max_cards_bound, "contests": contests, "audit_type": audit_type,
+    flag_type = rng.pick(["bool", "bool", "numpy", "int"])
+    for cv in cvrs:
+        cv["flag_type"] = flag_type
+    world = {"use_style": use_style, "style_flag_type": rng.pick(["bool", "bool", "numpy", "int"]),
+             "max_cards": max_cards_bound, "contests": contests, "audit_type": audit_type,
              "contest_order": corder, "omit_empty_kwargs": rng.chance(0.5),
              "seed": rng.getrandbits(64), "sim_seed": rng.getrandbits(31)}
     # ---- manual records (auditors' fault plan), per real card
@@ -226,7 +230,8 @@ def gen_case(rng, max_cards=40, audit_types=None, allow_style_off=True, max_roun
     if ph_pool:
         ph_label = rng.pick(["phantom-pool"] + pooled_labels)
     else:
-        ph_label = rng.pick([None, None, "phantom-pool"])
+        # (the label and the flag are independent arguments: phantoms may carry a pooled batch's label without being pooled)
+        ph_label = rng.pick([None, None, "phantom-pool"] + (pooled_labels[:1] if pooled_labels else []))
     phantom_label = {"tally_pool": ph_label, "pool": ph_pool}
     tickets = {c["id"]: rng.getrandbits(62) for c in cards}
     phantom_tickets = [rng.getrandbits(62) for _ in range(shortfall + max_cards_bound + 4)]
@@ -246,11 +251,15 @@ def gen_case(rng, max_cards=40, audit_types=None, allow_style_off=True, max_roun
                        "refresh": bool(r > 0 and rng.chance(0.2)),
                        "rebuild": bool(r > 0 and variant != "continue" and rng.chance(0.15)),
                        "continue_order": rng.pick(["same", "same", "sorted", "reversed"]),
+                       "renumber": bool(r > 0 and rng.chance(0.2)), "reestimate": rng.pick([False, False, False, "with-sample", "planning"]),
+
                        "shuffle": rng.getrandbits(32)})
     rehearsal = {"seed": rng.getrandbits(48), "frac": rng.pick([0.2, 0.5, 1.0])} if (not polling and rng.chance(0.2)) else None
     return {
         "rehearsal": rehearsal, "pools_restricted": bool(unaudited and rng.chance(0.6)),
         "diluted_look": rng.chance(0.3), "persist_mvrs": rng.chance(0.5),
+        "phantom_prefix": rng.pick(["phantom-1-", "phantom-1-", "missing-1-", "Phantom-1-", "99-0-"]),
+        "margin_route": rng.pick(["all", "all", "each"]),
         "world": world, "cvrs": cvrs, "cards": [{k: c[k] for k in ("id", "tab", "batch", "pos")} for c in cards],
         "ballots": {c["id"]: c["ballot"] for c in cards} if polling else None,
         "batches": batches, "lost": lost, "mvr": mvr, "phantom_label": phantom_label,
